@@ -14,6 +14,10 @@ pub fn units(tier: &str, _seed: u64) -> Vec<String> {
     for s in shapes {
         v.push(unit(&[("shape", s), ("n", "1"), ("fs", "PEN")]));
     }
+    // long series (symbolic first step, fixed constants afterwards): the factor is the same function at every step,
+    // whatever the number of steps
+    v.push(unit(&[("shape", shapes[1]), ("n", "13"), ("win", "1"), ("fs", "PEN"), ("bud", "60")]));
+    v.push(unit(&[("shape", shapes[0]), ("n", "24"), ("win", "1"), ("fs", "PEN"), ("bud", "60")]));
     // fractions of a Wh: the factor is the same function of production / use
     v.push(unit(&[("shape", shapes[1]), ("n", "1"), ("fs", "PEN"), ("dom", "0.00001:0.01")]));
     v.push(unit(&[("shape", shapes[0]), ("n", "1"), ("fs", "PEN"), ("dom", "0.0001:1")]));
